@@ -314,7 +314,9 @@ func streamGlue(seed uint64, n int, tier string, tmp string) *Stats {
 		nHist = 12
 	}
 	es := &execStats{kinds: map[string]int{}}
-	for i := 0; i < nHist; i++ {
+	ranHist := 0
+	for i := 0; i < nHist && !budgetSpent(1.0); i++ {
+		ranHist++
 		h, _ := genHistory(r, r.Range(6, 14))
 		dir := filepath.Join(tmp, fmt.Sprintf("g%d", i))
 		fails := runHistory(h, dir, es)
@@ -364,6 +366,8 @@ func streamGlue(seed uint64, n int, tier string, tmp string) *Stats {
 			st.Fail(f.what, in, f.got, f.expect)
 		}
 	}
+	st.Extra["histories_planned"], st.Extra["histories_run"] = nHist, ranHist
+	st.Extra["stopped_by_wall_clock_budget"] = ranHist < nHist
 	st.Extra["steps"] = es.steps
 	st.Extra["first_error_of_failing_builds"] = es.kinds
 	st.Extra["bundles_executed_in_node"] = es.probeRuns
